@@ -14,6 +14,10 @@ CLAIMED = {
          "Exploration: same executions as C01 with the content oracle; mismatches classified by an independent wasmparser decoder.",
          "Trusts wasmprinter/wasmparser 0.235; name-section layout and section framing are not compared.", "§4 C02"),
 }
+NA_REASONS = { "C03": ("runtime crash monitor: catch_unwind + child-process exit status over mutated / truncated / spliced / unmodelled-feature binaries",
+         "Exploration: hostile near-valid inputs (mutations of generated modules and components, fixtures, assert_malformed payloads, hand-made unmodelled-feature binaries, nesting to depth 4096) are parsed by both entry points with both flag values; any unwind or abnormal child exit is a violation.",
+         "Says nothing about inputs the mutators do not reach; time/memory limits are inconclusive, never a violation.", "§4 C03"),
+}
 NA_REASONS = {}
 PENDING_REASON = "monitor not built yet in this revision (design in DESIGN.md §4); will be claimed once its check runs silent and fires on seeded breaks"
 
